@@ -231,6 +231,21 @@ def nulclass_family():
     return out
 
 
+def big_family():
+    """rule sets whose tables outgrow 16-bit elements although they have few states: (a) keywords next to an identifier rule
+    (wide rows: without equivalence classes yy_nxt/yy_chk pass 32767 entries at about 600 states), (b) many rules accepting in
+    the same states (REJECT: yy_acclist passes 32767 entries)"""
+    rng = random.Random(4242)
+    kw = set()
+    while len(kw) < 150: kw.add(bytes(rng.choice(b"abcdefghijklmnopqrstuvwxyz") for _ in range(rng.randint(5, 8))))
+    kw = sorted(kw)
+    ident = P.plus(P.ccl([P.cr(97, 122)]))
+    a = ruleset([rule(P.lit(k)) for k in kw] + [rule(ident), rule(P.alt(P.dot(), P.chr_(10)))], name="hw-big-keywords")
+    b = ruleset([rule(P.lit(k)) for k in kw[:120]] + [rule(ident) for _ in range(60)] + [rule(P.alt(P.dot(), P.chr_(10)))], name="hw-big-acclists")
+    a["profile"] = b["profile"] = "big"
+    return [a, b]
+
+
 def handwritten():
     """transcriptions of shapes that matter (anchors, trailing context, start
     conditions, REJECT order), independent of any seed"""
